@@ -20,8 +20,8 @@ CLAIMED = {
                 "performs exactly the place-value instruction the grammar prescribes (digits, guard, blocking flags), and a comma is never a number word; the "
                 "DigitString operations themselves have strongest-postcondition contracts (C12). For de/it/nl the splitter's pattern list in Default::default is "
                 "proved equal to the frozen list and every table word is proved not to be split. NOT proved: the composition lemma that the words of spell(n) "
-                "executed in sequence yield decimal(n) for all n < 10^12 (no spelling driver was built), and the behaviour of glued compounds of de/it/nl beyond "
-                "'the group result is placed as a whole' (the daachorse automaton is assumed).",
+                "executed in sequence yield decimal(n) for all n < 10^12 (no spelling driver was built), and the behaviour of glued / hyphenated compounds beyond "
+                "'the group result is placed as a whole under the Overlap guard' (proved for en, fr, de, it, nl; the daachorse automaton is assumed).",
         "note": TRUST + "Known finding (German 'eine Million') listed in known_findings.txt. WordSplitter (daachorse) has an assumed contract: is_splittable == "
                 "'some pattern occurs and the word is not itself a pattern'; Italian/German/Dutch values are assumed to come from Default::default (private field).",
         "design_ref": "DESIGN.md §12.3 C01",
@@ -30,8 +30,10 @@ CLAIMED = {
         "text": "Tokenizer is lossless (every token is exactly the source characters between two consecutive positions, nothing skipped, proved on "
                 "Tokenize::next/match_word/match_sep with byte-offset/char-index bookkeeping); BasicToken::new keeps the text verbatim; the annotation pass of "
                 "every language may only flip `nan` hints (trait contract: texts unchanged); occurrences handed to `replace` are in bounds, strictly increasing "
-                "and disjoint (tracker invariant). NOT proved: the splice postcondition of NumTracker::replace / replace_numbers_in_text itself (Vec::drain + "
-                "insert + join are hoisted with assumed contracts and the final 'output = input with exactly the spans replaced' lemma was not written).",
+                "and disjoint (tracker invariant); NumTracker::replace / replace_numbers_in_stream: the output list is the input list with each span replaced by "
+                "one token that Replace::replace made from exactly that span and the number's text, nothing else moved (splice spec + provenance); "
+                "replace_numbers_in_text: the output text is the concatenation of the token texts of that splice, the tokens concatenating to the source. "
+                "Assumed: Vec::drain/insert and join contracts, and whole-stream losslessness of tokenize inside unit scan (proved per token in unit tok).",
         "note": TRUST + MECH + "A-PEEK/A-SLICE: Peekable<CharIndices> and str slicing are specified by assumed contracts in specs/tok.vspec.",
         "design_ref": "DESIGN.md §12.3 C02",
     },
